@@ -55,7 +55,7 @@ SpillInRange == \A g \in Group : made[g] /\ st[g].win = (wend[g] \div W) - 1 =>
 \* D3 made visible: the share a group would get per window if spillover were carried per share
 \* (expected to be VIOLATED by the code as it is - see MC_x03_group_witness.cfg)
 ShareBound == \A g \in Group : st[g].win # -1 =>
-                  st[g].tot <= (st[g].win - st[g].first + 1) * (((A * Pct[g]) + 99) \div 100)
+                  st[g].tot <= P!Cap(st[g].win - st[g].first + 1) * (((A * Pct[g]) + 99) \div 100)
 
 \* witnesses (expected to be violated: the state space reaches these situations)
 NoSpillUse == \A g \in Group : counter[g] <= A                       \* some window passes more than the allowance
